@@ -17,6 +17,8 @@ import (
 const preludeCommon = `
 (declare-fun validDenom (String) Bool)
 (declare-fun opaqueStr (Int) String)
+(declare-fun decStrOK (String) Bool)
+(declare-fun decRawOfStr (String) Int)
 `
 const preludeExact = preludeCommon + "(define-fun nlmul ((a Int) (b Int)) Int (* a b))\n(define-fun nldiv ((a Int) (b Int)) Int (div a b))\n"
 const preludeUF = preludeCommon + "(declare-fun nlmul (Int Int) Int)\n(declare-fun nldiv (Int Int) Int)\n"
